@@ -101,3 +101,41 @@ def register(R, P):
         modifies=["every(UserCellsImpl.ghost_propset)", "every(UserCellsImpl.ghost_propset_define)", "every(NodeObj.is_cached)"],
         alloc=True)
     P["_spmgr"] = ["SpaceManager.set_cells_property"]
+
+
+def register2(R, P):
+    # ---- SpaceUpdater._execute_or_restore (C11, fix #9): a failed re-derivation is undone FROM THE COMMITTED GRAPH -------------
+    R.cls("InstructionList")
+    R.classes["SharedSpaceOperations"].fields.update({"ghost_rederived": "int"})
+    R.cls("SpaceUpdaterT", bases=("SharedSpaceOperations",), fields={"manager": "SpaceManagerT", "_instructions": "InstructionList"})
+    R.contract("extern::InstructionList.execute", trusted=True,
+        note="runs the queued re-derivation instructions (UserSpaceImpl.on_inherit per space): may raise at any point; does not call update_subs",
+        params={"self": "InstructionList"}, ensures=[], raises={"*": []},
+        modifies=[], alloc=True)
+    R.contract("extern::SpaceGraph.to_space", trusted=True, pure=True,
+        params={"self": "SpaceGraph", "node": "str"}, returns="UserSpaceT", ensures=["result is space_of(self, node)"])
+    R.contract("extern::SharedSpaceOperations.update_subs", trusted=True,
+        note="derive-from-scratch of the space and all its subs along THIS object's graph (self._graph); bounded (C03 driver)",
+        params={"self": "SharedSpaceOperations", "space": "UserSpaceT", "skip_self": "bool"},
+        ensures=["self.ghost_rederived == old(self.ghost_rederived) + 1"],
+        raises={"*": ["self.ghost_rederived == old(self.ghost_rederived) + 1"]},      # (the ghost counts attempts on this object)
+        modifies=["self.ghost_rederived"], alloc=True)
+    for q in ("InstructionList.execute", "SpaceGraph.to_space", "SharedSpaceOperations.update_subs"):
+        R.contracts[q] = R.contracts.pop(q)
+
+    @R.specfun("space_of")
+    def space_of(ev, g, node):
+        return SV(z3.Function("space_of_node", Ref, Str, Ref)(g.v, node.v), RefT("UserSpaceT"))
+
+    R.contract(M + "::SpaceUpdater._execute_or_restore",
+        params={"self": "SpaceUpdaterT", "node": "str"},
+        requires=["self.manager is not self"],
+        ensures=["NO-RESTORE-NEEDED:: self.manager.ghost_rederived == old(self.manager.ghost_rederived) and self.ghost_rederived == old(self.ghost_rederived)"],
+        raises={"*": [
+            # C11: when derivation fails half-way, the derived members are derived again along the graph BEFORE the change --
+            # the manager's committed graph, never the updater's working copy (which still holds the rejected edges)
+            "RESTORED-FROM-COMMITTED-GRAPH:: self.manager.ghost_rederived == old(self.manager.ghost_rederived) + 1",
+            "WORKING-COPY-NOT-USED:: self.ghost_rederived == old(self.ghost_rederived)",
+        ]},
+        modifies=["self.manager.ghost_rederived", "self.ghost_rederived"], alloc=True)
+    P["_spmgr"] += ["SpaceUpdater._execute_or_restore"]
